@@ -152,13 +152,19 @@ def gen_case(rng):
                 regroup=rng.random() < 0.5,
                 # a device whose update raises in that cycle
                 faulty=rng.choice([None] * 6 + [2, 3, 5]),
+                sidekick=rng.random() < 0.3,
                 rseed=rng.getrandbits(32))
 
 
 def run_case(case):
     random.seed(case["rseed"])
     sims = simgroup.make_sims(case["terms"])
-    b = bus.Bus(sims)
+    # a second slow group of the same master runs next to the one under
+    # observation: a subclass of SyncGroup (its own name and cycle time)
+    # over a terminal of its own, started first
+    sk_terms = [dict(pos=60, isz=2, osz=2, fmmu=False, rw=True)] \
+        if case.get("sidekick") else []
+    b = bus.Bus(sims + simgroup.make_sims(sk_terms))
     hist = dict(cyc=[], updates=[], errors=[], logs=[])
     hists = [hist]
     state = dict(k=0, index=None)
@@ -266,6 +272,14 @@ def run_case(case):
                 sbytes=[(ti, sd.seen[-1]) for ti, sd in sbdevs]))
             return r
         sg.update_devices = upd
+        side_task = None
+        if sk_terms:
+            class SideGroup(SyncGroup):
+                name = "side"
+                cycletime = 0.013
+            _ts2, devs2 = simgroup.make_rig(sk_terms, ec)
+            side = SideGroup(ec, devs2)
+            side_task = side.start()
         for seg in range(2 if case.get("restart") else 1):
             if seg:
                 hists.append(dict(cyc=[], updates=[], errors=[],
@@ -299,6 +313,12 @@ def run_case(case):
             h_["counters"] = sorted(sg.packet.counters.items())
             h_["assign"] = {t: dict(sg.pdo_assign[t]) for t in ts}
             await asyncio.sleep(0.05)
+        if side_task is not None:
+            if side_task.done() and not side_task.cancelled():
+                hists[0]["task_error"] = "the group next to it: " + repr(
+                    side_task.exception())
+            side_task.cancel()
+            await asyncio.gather(side_task, return_exceptions=True)
     try:
         aio.run(main, wall_limit=40)
     finally:
